@@ -64,6 +64,10 @@ def run(ck):
                         "overlap tests of conflict resolution see a query-axis overlap on both strands (as C15.7 / C11.6)")
     from .c02 import records_frozen
     records_frozen(ck, "C03.15")
+    ck.clause("C03.17", "the conflict test sees every overlap of two neighbouring chain members (as C15.6): an overlap that is not "
+                        "resolved leaves a label in two segments of the record, and the HitEnum walk counts it twice")
+    from .c15 import overlap_test as _ot03
+    _ot03(ck, "C03.17")
     ck.clause("C03.16", "only neighbours in a chain can overlap (as C14.2): a join of two segments that overlap by more than half of the "
                         "shorter one is inadmissible, so the pairwise pass leaves no label listed twice for the HitEnum walk to trip over")
     from . import c14 as _c14
